@@ -459,6 +459,8 @@ def check_case(specs, op):
 def _raise_key(opn, e, specs, n_cells):
     """zero-size results / empty inputs are a different defect class than a raise on ordinary inputs: they get one key
     per exception class, independent of the entry point (from_concat_items delegates to from_concat)"""
+    if exc_tag(e) == 'np.in1d-removed-in-numpy2':
+        return 'C11:util.isin_array:np.in1d-removed-in-numpy2'
     if n_cells == 0 or any(len(s['rows']) == 0 or len(s['cols']) == 0 for s in specs):
         return f'C11:degenerate-input-or-zero-size-result:raises-{exc_tag(e)}'
     return f'C11:{opn}:raises-{exc_tag(e)}'
@@ -574,7 +576,7 @@ def family_overlay(tier):
         return 1 << (2 * sum(1 for k in kinds if k in NULLABLE))
     kind_pairs = [(a, b) for a in OV_KINDS for b in OV_KINDS]
     if tier == 'quick':
-        kind_pairs = [p for i, p in enumerate(kind_pairs) if i % 5 == 0]
+        kind_pairs = [p for i, p in enumerate(kind_pairs) if i % 3 == 0]
     c = 0
     for (k0, k1) in kind_pairs:
         for rrel, rows1 in OV_ROWS.items():
@@ -582,7 +584,7 @@ def family_overlay(tier):
                 for p0 in range(npat(k0)):
                     for p1 in range(npat(k1)):
                         c += 1
-                        if tier == 'quick' and npat(k0) * npat(k1) > 16 and (c % 4):
+                        if tier == 'quick' and npat(k0) * npat(k1) > 16 and (c % 3):
                             continue
                         specs = [fspec(0, ('a', 'b'), ('x', 'y'), k0, layout=c % 3, miss=p0),
                                  fspec(1, rows1, cols1, k1, layout=(c // 3) % 3, miss=p1)]
